@@ -99,9 +99,9 @@ let diag_line l =
     | None -> "-"
     | Some ((f, l), c) -> Printf.sprintf "%d:%d:%d" (int_of_nat f) (int_of_nat l) (int_of_nat c) in
   print_endline (String.concat " ; " (List.map (fun d ->
-    Printf.sprintf "D id=%d pos=%d:%d valid=true n=%d places=%s" (int_of_nat d.d_head.c_id)
+    Printf.sprintf "D id=%d pos=%d:%d valid=true n=%d places=%s flow=%s" (int_of_nat d.d_head.c_id)
       (int_of_nat d.d_head.c_pos.p_file) (int_of_nat d.d_head.c_pos.p_line) (List.length d.d_similar)
-      (String.concat "|" (List.map place (shown_places d)))) ds))
+      (String.concat "|" (List.map place (shown_places d))) (place (last_cpos d.d_head))) ds))
 
 (* scope case: include-flag TAB exclude-flag TAB package path *)
 let str_to_nats s = List.init (String.length s) (fun i -> nat_of_int (Char.code s.[i]))
